@@ -178,7 +178,10 @@ struct C19 : Scenario {
     if (w.aborted || quit_sent || eof_sent || desync) return false;
     // stop at states that another session already extended (not while replaying the prefix that leads here); the first
     // `fulldepth` commands are never merged, so that state the model does not know of (buffers, cursors) left by one command is seen by the next
-    if (!w.ex->in_prefix() && depth >= cfg.geti("fulldepth", 1) && !w.ex->outcome(state_hash())) { w.counters["sessions_merged_into_visited_state"]++; in->writers = 0; eof_sent = true; cur = &eofcmd; return true; }
+    if (!w.ex->in_prefix() && depth >= cfg.geti("fulldepth", 1) && !w.ex->outcome(state_hash())) { w.counters["sessions_merged_into_visited_state"]++;
+      // the session is not extended further, but it is *closed with QUIT*: what QUIT removes is the one observation that depends on everything the server
+      // remembers about this particular path (marks taken back by RSET, refused DELEs), not only on the model state the path was merged on
+      cur = &quitcmd; depth++; session += (session.empty() ? "" : " | ") + cur->line; pending_want = expected(*cur, &pending_err); quit_sent = true; in->buf += cur->line + "\r\n"; return true; }
     if (depth >= cfg.geti("maxdepth", 12)) { in->writers = 0; eof_sent = true; cur = &eofcmd; return true; }
     int ci = w.ex->choose_n((int) cmds.size(), BK_FREE);
     cur = &cmds[ci]; depth++; session += (session.empty() ? "" : " | ") + cur->line; w.counters["transitions_cmd"]++;
@@ -193,6 +196,7 @@ struct C19 : Scenario {
     return true;
   }
   Cmd eofcmd{"(client disconnects)", 14, 0, 0};
+  Cmd quitcmd{"QUIT", 11, 0, 0};
 
   void at_end(World &w) override {
     if (mode == "popup") { popup_end(w); return; }
